@@ -14,31 +14,34 @@ PROPS = "Gql.Props.C15"
 DRIVER = "drv_c15"
 LEVEL = "proof"
 LEVEL_TEXT = (
-    "Lean theorems (unbounded, all values/types): for every type map without OneOf objects (any nesting of list/non-null over "
-    "the built-in scalars, enums and recursive input objects with defaults) coerce_input_value never raises and returns a "
-    "value iff validate_input_value reports nothing (coerce_iff_valid_value_partial); validation silence is independent of "
-    "the path prefix; a built-in scalar's value and literal coercion yields a 32-bit Int / finite Float / text / bool "
-    "(scalar_value_conforms, scalar_literal_conforms - the latter failed on the code as found: Float literal 1e1000 -> inf); "
-    "enum coercion yields a declared internal value; nullish under non-null is rejected, under nullable is None and valid; "
-    "literal coercion and literal validation agree at leaf types; value_to_literal/coerce_input_literal round trip for "
-    "String/Boolean/ID; a provided variable gets a value or at least one error (variables_step_total_partial). The full "
-    "statements (OneOf counting, literals with variable maps, structural conformance, full round trip, whole variable "
-    "list) are kept as `_full : Prop` definitions and are NOT proved; they are checked on every run on the implementation: "
-    "the models of all seven functions are compared with the code on generated type maps x values x literals x variable "
-    "maps (~36k calls quick, ~1M thorough) and the property's relations (coerce ok <=> validation silent for values and "
-    "literals, conformance, literal round trip, rule <=> coercion, variables total) are evaluated directly on the "
+    "Lean theorems (unbounded: all type maps, values, literals, variable maps), every clause of the property. For every "
+    "well-formed type map - any nesting of list/non-null over the built-in scalars, enums, recursive input objects with defaults "
+    "and OneOf input objects: coerce_input_value never raises and returns a value iff validate_input_value reports nothing "
+    "(coerce_iff_valid_value); the same for literals, statically for constants and with a variable map "
+    "(coerce_iff_valid_literal: lists with missing variables, objects with variable fields, OneOf counting and null checks); "
+    "ValuesOfCorrectTypeRule's verdict on a constant argument is that of coercion (rule_iff_coerce); every result of value "
+    "coercion and of constant-literal coercion conforms to the type - 32-bit Int, finite Float, declared enum value, exactly the "
+    "declared fields in order with non-null and defaulted fields present, exactly one non-None entry for OneOf, None only where "
+    "nullable (coerced_conforms, coerced_conforms_literal, inductive Conforms; the Float-literal clause failed on the code as "
+    "found: 1e1000 -> inf); value_to_literal followed by coerce_input_literal gives exactly the coerced value, through lists, "
+    "objects with defaults and OneOf, under five stated CPython laws (literal_roundtrip); get_variable_values never raises and "
+    "returns errors or a value for every provided/defaulted variable (variables_total); wrong containers at object positions are "
+    "rejected by both functions. The models of all seven functions are compared with the code on generated type maps x values x "
+    "literals x variable maps (~29k calls quick, ~1.3M thorough), and the property's relations are evaluated directly on the "
     "implementation's outputs for every generated case."
 )
 LEVEL_NOTE = (
-    "Partial proof: the OneOf clause, the literal-with-variables clause, the structural part of conformance, the list/object "
-    "part of the literal round trip and the whole-list form of variables_total are stated (`*_full`) but not proved; for these "
-    "the evidence is the correspondence run plus the implementation-side oracles. Trusted: Lean kernel; hand-written models "
-    "Gql/Values/*.lean (tied by correspondence); CPython numeric conversions are parameters. Hypotheses (what schema "
-    "validation guarantees): defaults valid, OneOf fields without defaults, enum internal values not None, literals with "
-    "unique field names; a bare missing variable at a nullable position is 'no value' by design. replace_variables only "
-    "feeds custom scalars and is not modelled; out_name/out_type, fragment variables and non-str dict keys are outside the model. Non-dict Mappings (MappingProxyType, ChainMap, "
-    "UserDict, user Mapping), dict subclasses and non-list iterables (set, frozenset, generator, deque, user iterable) are "
-    "modelled (PyVal.mapping / dict / iter) and generated at every list and object position."
+    "No clause is left unproved at model level. Trusted: Lean kernel; hand-written models Gql/Values/*.lean (tied by "
+    "correspondence, not by translation); CPython numeric conversions are parameters (RoundTripLaws, PyConv.Laws are hypotheses, "
+    "spot-checked by the round-trip oracle). Hypotheses of the theorems = what schema validation and Python guarantee: TmWF "
+    "(defaults valid, OneOf fields nullable without defaults, enum internal values not None, unique field names per input object), "
+    "DefaultsConform (coerce_default_value's own results conform), dict keys unique, literals with unique field names, default "
+    "literals constant; a bare variable without runtime value at a nullable position is 'no value' by design (VarOK). That "
+    "ValuesOfCorrectTypeRule is a static validate_input_literal call is a correspondence fact, not a theorem. replace_variables "
+    "only feeds custom scalars and is not modelled; out_name/out_type, fragment variables and non-str dict keys are outside the "
+    "model. Non-dict Mappings (MappingProxyType, ChainMap, UserDict, user Mapping), dict subclasses and non-list iterables (set, "
+    "frozenset, generator, deque, user iterable) are modelled (PyVal.mapping / dict / iter) and generated at every list and "
+    "object position."
 )
 TECHNIQUE = "Lean 4 theorems about an executable model + differential correspondence check against the implementation"
 TRUSTED = [
@@ -60,14 +63,14 @@ ASSUMPTIONS = [
     "round-trip oracle on the implementation)",
 ]
 EXPLANATION = (
-    "Theorems: coerce_iff_valid_value_partial, coerce_value_no_crash, validate_silent_path_independent, scalar_value_conforms, "
-    "scalar_literal_conforms, enum_value_conforms, non_dict_rejected_by_both, wrong_containers_not_dict, coerced_conforms_nonNull_partial, null_is_valid_nullable, "
-    "coerce_iff_valid_literal_leaf_partial, literal_roundtrip_text_partial, variables_step_total_partial; full statements kept "
-    "as coerce_iff_valid_value_full, coerce_iff_valid_literal_full, coerced_conforms_full, rule_iff_coerce_full, "
-    "literal_roundtrip_full, variables_total_full. Correspondence: model vs coerce_input_value, validate_input_value, value_to_literal, coerce_input_literal, "
-    "validate_input_literal (static and with variables), get_variable_values, validate(doc,[ValuesOfCorrectTypeRule]). "
-    "Oracles on the implementation: coerce ok <=> validate silent (values, literals), conformance, literal round trip, "
-    "rule <=> coercion, variables total."
+    "Theorems: coerce_iff_valid_value, coerce_iff_valid_value_noOneOf, coerce_value_no_crash, non_dict_rejected_by_both, "
+    "wrong_containers_not_dict, validate_silent_path_independent, coerce_iff_valid_literal, coerce_literal_no_crash, "
+    "rule_iff_coerce, scalar_value_conforms, scalar_literal_conforms, enum_value_conforms, coerced_conforms, "
+    "coerced_conforms_literal, nullish_under_nonNull_rejected, null_is_valid_nullable, literal_roundtrip_leaf, literal_roundtrip, "
+    "variables_total. Correspondence: model vs coerce_input_value, validate_input_value, value_to_literal, coerce_input_literal, "
+    "validate_input_literal (static and with variables), get_variable_values, validate(doc,[ValuesOfCorrectTypeRule]). Oracles "
+    "on the implementation: coerce ok <=> validate silent (values, literals), conformance, literal round trip, rule <=> "
+    "coercion, variables total."
 )
 
 SCALARS = ["Int", "Float", "String", "Boolean", "ID"]
